@@ -24,6 +24,9 @@ import (
 // bubble) samples it.
 var Progress atomic.Int64
 
+// NapActive counts "nap" actions in progress (read by the watchdog outside the bubble).
+var NapActive atomic.Int32
+
 type ctxRec struct {
 	id         int
 	inst       string
@@ -56,6 +59,7 @@ type inst struct {
 	connQ   chan string
 	pending sync.WaitGroup // async api calls
 	npend   atomic.Int32
+	napping atomic.Bool // a "nap" reaction is letting virtual time pass while a call of this instance is held
 }
 
 type Runner struct {
@@ -492,7 +496,7 @@ func (r *Runner) doValidate(i *inst, a *Action) {
 func (r *Runner) sample(tag string) {
 	synctest.Wait()
 	for _, i := range r.order {
-		if i.el == nil {
+		if i.el == nil || i.napping.Load() {
 			continue
 		}
 		st := i.el.Status()
@@ -695,6 +699,22 @@ func (r *Runner) act(a *Action) {
 		}
 		for k := 0; k < n; k++ {
 			runtime.Gosched()
+		}
+	case "nap":
+		// let virtual time pass while a user-code call of the instance is being held. The
+		// instance is not sampled meanwhile (Status() would wait for the election mutex if the
+		// held call sits inside a critical section, and a mutex wait freezes the bubble's
+		// clock). If the clock freezes all the same - another goroutine of the instance wants
+		// that mutex - the watchdog outside the bubble abandons the scenario after a moment.
+		if i != nil {
+			i.napping.Store(true)
+		}
+		NapActive.Add(1)
+		r.add(Event{Kind: "nap", Inst: a.Inst, N: int64(a.D)})
+		time.Sleep(a.D)
+		NapActive.Add(-1)
+		if i != nil {
+			i.napping.Store(false)
 		}
 	case "sleep":
 	case "sample":
